@@ -9,7 +9,7 @@ Require Import KV.Model.Prelude KV.Model.Condensed KV.Model.Active KV.Model.Dend
   KV.Proofs.ShapeCheck KV.Proofs.SortProofs KV.Proofs.UpdateSpec KV.Proofs.Criteria KV.Proofs.CriteriaRun KV.Proofs.ChainIter
   KV.Proofs.ChainInstances KV.Proofs.QInf KV.Proofs.GenericGreedyInstances KV.Proofs.PermInstances KV.Proofs.NonNeg
   KV.Proofs.NonNegInstances KV.Proofs.FloatOrder KV.Proofs.AgreeChainInstances KV.Proofs.FirstStep.
-Require Import KV.Model.Chain.
+Require Import KV.Model.Chain KV.Model.Linkage.
 From Coq Require Import QArith Qabs Qfield Field Lqa Floats.
 From Flocq Require Import Core.FLX IEEE754.BinarySingleNaN.
 
@@ -128,11 +128,13 @@ Proof.
     lra.
 Qed.
 
-Lemma upd_gt_Q meth v0 va vb md sa sb sx : meth = Average \/ meth = Weighted \/ meth = Ward -> size_ok meth sa sb sx ->
+Lemma upd_gt_Q meth v0 va vb md sa sb sx : requires_sorting meth = true -> size_ok meth sa sb sx ->
   v0 < va -> v0 < vb -> v0 < md -> md <= va -> md <= vb ->
   v0 < upd_of QF meth va vb md sa sb sx.
 Proof.
-  intros Hm [Hab Hx] Pa Pb Pm Ma Mb. destruct Hm as [->|[->| ->]]; cbn [uses_sizes_ab uses_size_x] in *.
+  intros Hm [Hab Hx] Pa Pb Pm Ma Mb. destruct meth; try discriminate Hm; cbn [uses_sizes_ab uses_size_x] in *.
+  - cbn. destruct (Qle_bool vb va); assumption.
+  - cbn. destruct (Qle_bool va vb); assumption.
   - destruct (Hab eq_refl) as [Ha Hb]. cbn. fold (qn sa) (qn sb).
     pose proof (qn_pos' Ha). pose proof (qn_pos' Hb).
     apply Qlt_shift_div_l; [lra|]. nra.
@@ -211,7 +213,8 @@ Proof.
   - destruct Hm as [->|[->| ->]]; reflexivity.
   - intros v0 va vb md sa sb sx Hso _ _ _ _ La Lb Lm Ma Mb.
     cbn [kops_of k_upd k_ltb QFr f_ltb] in *. rewrite upd_QFr. apply qltb_true_of_lt.
-    apply upd_gt_Q; try assumption; try (apply qlt_of_ltb_true; assumption); apply qle_of_ltb_false; assumption.
+    apply upd_gt_Q; try assumption; try (apply qlt_of_ltb_true; assumption); try (apply qle_of_ltb_false; assumption).
+    destruct Hm as [->|[->| ->]]; reflexivity.
   - apply Forall_forall. intros; exact I.
   - intros x y w Hxy Hy Hne Hw. cbn [kops_of k_ltb QFr f_ltb]. apply qltb_true_of_lt. exact (Huniq x y w Hxy Hy Hne Hw).
 Qed.
@@ -251,6 +254,62 @@ Proof.
     { destruct (PrimitiveWF.prologue_wf _ _ _ HM0) as [_ Hdata]. rewrite Forall_forall in Hsome. apply Hsome. rewrite <- Hdata.
       unfold wcell, PrimitiveGreedy.mcell in Hw. eapply nth_error_In. exact Hw. }
     destruct Fw as (qw & ->). cbn [qi_ltb]. apply qltb_true_of_lt. exact (Huniq x y qw Hxy Hy Hne Hw).
+Qed.
+
+(* nnchain over option Q (all five of its methods), and what `linkage` runs for the six methods
+   other than single (complete .. ward: nnchain; centroid, median: generic) *)
+Theorem nnchain_first_step_QI meth s d (mq : list Q) n s' d' m' (M0 : cmat qi) (a b : nat) (v : Q) :
+  requires_sorting meth = true ->
+  nnchain_with (KI meth) p meth s d (map Some mq) n = Ok (s', d', m') ->
+  prologue p (square_all (KI meth) (map Some mq)) n = Ok M0 ->
+  a < b -> b < m_obs M0 ->
+  wcell M0 a b = Some (Some v) ->
+  (forall x y w, x < y -> y < m_obs M0 -> (x, y) <> (a, b) -> wcell M0 x y = Some (Some w) -> (v < w)%Q) ->
+  exists t, nth_error (d_steps d') 0 = Some t /\ s_c1 t = a /\ s_c2 t = b /\ s_size t = 2
+    /\ s_dis t = k_rt (KI meth) (Some v).
+Proof.
+  intros Hsort H HM0 Hab Hb Hv Huniq.
+  assert (Hsome : Forall fin_qi (square_all (KI meth) (map Some mq))).
+  { unfold square_all. rewrite map_map. apply Forall_forall. intros w Hw. apply in_map_iff in Hw. destruct Hw as (x & <- & _).
+    cbn [kops_of k_sq QI f_mul]. destruct (on_squares meth); cbn; eexists; reflexivity. }
+  apply (@nnchain_first_step qi (KI meth) p meth qi_irrefl qi_trans fin_qi)
+    with (s := s) (d := d) (m := map Some mq) (n := n) (s' := s') (m' := m') (M0 := M0); try assumption.
+  - intros va vb md sa sb sx _ (qa & ->) (qb & ->) (qm & ->). cbn [kops_of k_upd]. rewrite upd_QI. eexists. reflexivity.
+  - intros _ v0 va vb md sa sb sx Hso (q0 & ->) (qa & ->) (qb & ->) (qm & ->) La Lb Lm Ma Mb.
+    cbn [kops_of k_upd k_ltb QI f_ltb qi_ltb] in *. rewrite upd_QI. cbn [qi_ltb]. apply qltb_false_iff.
+    apply upd_ge_Q; try assumption; apply qle_of_ltb_false; assumption.
+  - exact qi_negtrans.
+  - exact qi_eqb_le.
+  - intros va vb md sa sb sx [Hs _] Ma Mb. apply (@KI_rename_reducible rt meth); try assumption.
+    destruct meth; try discriminate Hsort; reflexivity.
+  - intros v0 va vb md sa sb sx Hso (q0 & ->) (qa & ->) (qb & ->) (qm & ->) La Lb Lm Ma Mb.
+    cbn [kops_of k_upd k_ltb QI f_ltb qi_ltb] in *. rewrite upd_QI. cbn [qi_ltb]. apply qltb_true_of_lt.
+    apply upd_gt_Q; try assumption; try (apply qlt_of_ltb_true; assumption); apply qle_of_ltb_false; assumption.
+  - intros x y w Hxy Hy Hne Hw. cbn [kops_of k_ltb QI f_ltb].
+    assert (Fw : fin_qi w).
+    { destruct (PrimitiveWF.prologue_wf _ _ _ HM0) as [_ Hdata]. rewrite Forall_forall in Hsome. apply Hsome. rewrite <- Hdata.
+      unfold wcell, PrimitiveGreedy.mcell in Hw. eapply nth_error_In. exact Hw. }
+    destruct Fw as (qw & ->). cbn [qi_ltb]. apply qltb_true_of_lt. exact (Huniq x y qw Hxy Hy Hne Hw).
+Qed.
+
+Theorem linkage_first_step_QI meth s d (mq : list Q) n s' d' m' (M0 : cmat qi) (a b : nat) (v : Q) :
+  meth <> Single ->
+  Linkage.linkage_with (QI rt) p meth s d (map Some mq) n = Ok (s', d', m') ->
+  prologue p (square_all (KI meth) (map Some mq)) n = Ok M0 ->
+  a < b -> b < m_obs M0 ->
+  wcell M0 a b = Some (Some v) ->
+  (forall x y w, x < y -> y < m_obs M0 -> (x, y) <> (a, b) -> wcell M0 x y = Some (Some w) -> (v < w)%Q) ->
+  exists t, nth_error (d_steps d') 0 = Some t /\ s_c1 t = a /\ s_c2 t = b /\ s_size t = 2
+    /\ s_dis t = k_rt (KI meth) (Some v).
+Proof.
+  intros Hns H. unfold Linkage.linkage_with in H.
+  destruct meth; try congruence; cbn [chain_capable] in H.
+  - exact (@nnchain_first_step_QI Complete s d mq n s' d' m' M0 a b v eq_refl H).
+  - exact (@nnchain_first_step_QI Average s d mq n s' d' m' M0 a b v eq_refl H).
+  - exact (@nnchain_first_step_QI Weighted s d mq n s' d' m' M0 a b v eq_refl H).
+  - exact (@nnchain_first_step_QI Ward s d mq n s' d' m' M0 a b v eq_refl H).
+  - exact (@generic_first_step_QI Centroid s d mq n s' d' m' M0 a b v H).
+  - exact (@generic_first_step_QI Median s d mq n s' d' m' M0 a b v H).
 Qed.
 
 End QRuns.
